@@ -18,6 +18,8 @@ MENU = [
     ("Box<En>", True, []), ("std::rc::Rc<Ei>", True, []), ("Box<Gp<St>>", True, []), ("std::sync::Arc<Eu>", True, []),
     ("InnerE2", True, [INNER_E2]), ("InnerES", True, [INNER_ES]), ("InnerE1", True, [INNER_E1]), ("OuterE2", True, [INNER_E2, OUTER_E2]),
     ("Box<InnerE2>", True, [INNER_E2]),
+    ("[St; 64]", False, []), ("[i32; 65]", False, []), ("Option<[St; 64]>", False, []), ("Vec<[i32; 64]>", False, []), ("[Option<St>; 3]", False, []),
+
     ("i32", False, []), ("String", False, []), ("Option<St>", False, []), ("Vec<St>", False, []), ("[St; 2]", False, []),
     ("BTreeMap<String, St>", False, []), ("HashMap<Ue, St>", False, []), ("Box<St>", True, []), ("Option<Vec<Option<St>>>", False, []),
     ("St", True, []), ("En", True, []), ("Ue", False, []), ("Nt", False, []), ("Tu", False, []), ("Un", False, []),
